@@ -11,6 +11,7 @@ node:    `["text", s]` `["out", e]` `["assign", n, e]` `["capture", n, [node…]
          `["for", var, label, e, [..], [..]]` `["with", [[n, e]…], [..]]` `["incr", n]` `["decr", n]`
          `["include", name, null | [e, alias|null], [[n, e]…]]` `["render", name, null | [loop, e, alias|null], [[n, e]…]]`
          `["macro", name, [[p, e|null]…], [..]]` `["call", name, [e…], [[n, e]…]]`
+         `["block", name, [..]]` `["extends", name]` `["tablerow", var, e, [..]]`
 -/
 namespace Driver.C14
 
@@ -113,6 +114,9 @@ partial def parseNode (j : Json) : Option Node := do
         | _ => none)
     pure (.render (← asStr? name) b (← parseKw a))
   | [.str "macro", name, ps, b] => pure (.macroDef (← asStr? name) (← parseParams ps) (← parseNodes b))
+  | [.str "block", name, b] => pure (.block (← asStr? name) (← parseNodes b))
+  | [.str "extends", name] => pure (.extends (← asStr? name))
+  | [.str "tablerow", v, e, b] => pure (.tablerow (← asStr? v) (← parseExpr e) (← parseNodes b))
   | [.str "call", name, pos, kw] =>
     pure (.call (← asStr? name) (← (← asArr? pos).mapM parseExpr) (← parseKw kw))
   | _ => none
@@ -131,6 +135,9 @@ def errName : Err → String
   | .notFound => "TemplateNotFoundError"
   | .disabledTag => "DisabledTagError"
   | .undefined => "UndefinedError"
+  | .inheritance => "TemplateInheritanceError"
+  | .assertion => "AssertionError"
+  | .sizeMismatch => "MODEL-ASSERTION-scope-size"
 
 def getBool (j : Json) (k : String) : Bool := match j.getObjVal? k with | .ok (.bool b) => b | _ => false
 
